@@ -33,7 +33,9 @@ PATS = {"*.bak": ["x.bak", "old.bak"], "tmp*": ["tmpA", "tmp_2.bin"], "cache/": 
         "P/Q/*.tmp": ["P/Q/render.tmp", "P/Q/later.tmp"], "/R1/R2/x.dat": ["R1/R2/x.dat"], "S/T/": ["S/T/u.bin"],
         "Q/later.tmp": ["Q/later.tmp"], "P/*/deep.bin": ["P/Q/deep.bin", "P/W/deep.bin"],
         # a backslash is an ordinary character of a POSIX file name; these patterns match across it
-        "ren*.cch": ["ren\\der.cch"], "back?slash.dat": ["back\\slash.dat"]}
+        "ren*.cch": ["ren\\der.cch"], "back?slash.dat": ["back\\slash.dat"],
+        # line separator characters other than \n / \r are ordinary characters of a name and of a pattern-file line
+        "scratch\u2028notes": ["scratch\u2028notes"], "nel\u0085*": ["nel\u0085x.bin"]}
 
 
 def generate(rng, tier):
@@ -73,6 +75,9 @@ def generate(rng, tier):
         ops.append(scen.cmd("create", scen.root_arg(sub), *args))
     if rng.random() < 0.4:
         lines = [rng.choice(pats) for _ in range(rng.randint(1, 3))]
+        special = [p_ for p_ in pats if any(ch in p_ for ch in "\u2028\u0085")]
+        if special:
+            lines.append(special[0])
         text = "\n".join(lines) + ("\n\n" if rng.random() < 0.5 else "\n") + (lines[0] + "\n" if rng.random() < 0.5 else "")
         ops.append({"op": "write", "path": "@M/patterns.txt", "c": {"text": text}})
         have_file = True
